@@ -277,6 +277,11 @@ def reset_state(outpath=None):
                   "outpath": str(outpath) if outpath else None})
 
 
+def _fw_locked():
+    import vermouth.file_writer as _fw
+    return _fw.lock.locked()
+
+
 def other_fs_tmpdir(workdir):
     """put the deferred writer's temp files on another file system than the output directory if possible"""
     for cand in ("/dev/shm", "/run/shm", "/var/tmp"):
@@ -474,6 +479,21 @@ def run_case(cid, rng, workdir):
                           {"program": prog, "input": idx, "crash_point": list(pt[:4]), "stage": fired["stage"]})
             if fired is not None and fired["stage"] in PRE_SERIALISATION:
                 bump(res, "queue_checks_before_serialisation")
+            # the programs are library functions as well (polyply.gen_params ...): when the failed call has returned to its
+            # caller, the next successful call in the same process flushes the writer. Whatever the failed run left
+            # queued for its own output path is put in place by that flush - play it and look at the directory
+            later = None
+            after_call = fs_snapshot(d)
+            if fired is not None and fired["phase"] == "before" and raised is not None and prog != "gen_seq" and \
+                    not _fw_locked():
+                mine_q = [x for x in DeferredFileWriter().open_files if os.path.basename(str(x[1])) == fname]
+                if mine_q:
+                    try:
+                        DeferredFileWriter().write()
+                    except Exception:
+                        pass
+                    later = fs_snapshot(d)
+                bump(res, "later_flush_played")
             try:
                 DeferredFileWriter().close()       # process exit
             except Exception:
@@ -485,7 +505,7 @@ def run_case(cid, rng, workdir):
                 # no lock, so release it for the next run in this worker
                 _fw.lock.release()
                 bump(res, "writer_lock_released_after_fault")
-            after = fs_snapshot(d)
+            after = after_call
             if fired is None:
                 bump(res, "points_not_reached_again")
                 continue
@@ -496,6 +516,12 @@ def run_case(cid, rng, workdir):
             res["nontrivial"] = True
             w = {"program": prog, "input": idx, "crash_point": list(pt[:4]), "stage": fired["stage"], "phase": fired["phase"],
                  "before": {k: v[2:] for k, v in before.items()}, "after": {k: v[2:] for k, v in after.items()}}
+            if fired["phase"] == "before" and later is not None and later != before:
+                changed = sorted(set(later) ^ set(before)) + [k for k in later if k in before and later[k] != before[k]]
+                violation(res, "%s:output-of-failed-run-appears-at-next-flush" % prog,
+                          "fault at %s (stage %s): the call raised, but its unfinished output stayed queued in the deferred "
+                          "writer; the flush of the next successful call in the process changes the directory: %s" %
+                          (pt[:4], fired["stage"], changed), dict(w, after_next_flush={k: v[2:] for k, v in later.items()}))
             if fired["phase"] == "before":
                 bump(res, "faults_before_flush")
                 if after != before:
